@@ -74,14 +74,14 @@ def run_sym(res, specs, opts):
         if b is None:
             res.errors.append({'what': 'harness does not compile', 'spec': lab, 'diag': err[-3000:]})
             continue
-        fn = os.path.join(rundir, os.path.basename(b) + '.dag')
+        fn = os.path.join(rundir, os.path.basename(b) + '.%d.dag' % k)
         rc, out = build.run_harness(b, fn, [s.get('filter', '.*'), '--maxpaths', str(s.get('maxpaths', 64))])
         if rc != 0:
             res.errors.append({'what': 'harness run failed', 'spec': lab, 'diag': out[-2000:]}); continue
         dagfiles[k] = fn
         for e in dagm.load(fn):
             if e.truncated: res.undecided.append('%s: path enumeration truncated' % e.name)
-            for p in e.paths: jobs.append((fn, e.name, p.idx, opts))
+            for p in e.paths: jobs.append((fn, e.name, p.idx, dict(opts, **s.get('opts', {}))))
     results = {}
     with ProcessPoolExecutor(opts.get('procs', 8)) as ex:
         for fn, ename, pidx, r, st, err in ex.map(_prove_entry, jobs):
@@ -363,7 +363,7 @@ def run_trunc(res, specs, opts):
         b, err, secs = built[k]
         if b is None:
             res.errors.append({'what': 'harness does not compile', 'spec': s['src'] + ':' + ','.join(s['defs']), 'diag': err[-3000:]}); continue
-        fn = os.path.join(rundir, os.path.basename(b) + '.dag')
+        fn = os.path.join(rundir, os.path.basename(b) + '.tr%d.dag' % k)
         rc, out = build.run_harness(b, fn, [s.get('filter', '.*')])
         if rc != 0:
             res.errors.append({'what': 'harness run failed', 'spec': s['src'], 'diag': out[-2000:]}); continue
